@@ -44,6 +44,8 @@ pub fn replay_one(t: &Templates, case: &Value) -> (Outcome, String) {
         "lit_int" => "f = 7".to_string(),
         "lit_str" => "f = \"zz\"".to_string(),
         "lit_bool" => "f = true".to_string(),
+        "repeat" => "f = [7; 2]".to_string(),
+        "repeat_huge" => "f = [0; 18446744073709551615]".to_string(),
         x => panic!("carrier {}", x),
     };
     let tag = format!("{} <- {}", tgt, text);
